@@ -3,7 +3,7 @@
    for every non-empty list of finite normalised phases with counts up to 2^52 -- although approx itself is off by up to half a cycle. *)
 From Coq Require Import ZArith Reals Psatz Floats Bool List Lia.
 From Flocq Require Import Core BinarySingleNaN PrimFloat Relative.
-From PB Require Import Proofs.TwoSumExact Model.Phase2 Model.PhaseOrd Proofs.Floor Proofs.DayFrac Proofs.DayFrac3 Proofs.PhaseMul
+From PB Require Import Proofs.TwoSumExact Model.Phase2 Model.PhaseOrd Proofs.Floor Proofs.DayFrac Proofs.DayFrac3 Proofs.DayFracTail Proofs.DayFracFold Proofs.PhaseMul
   Proofs.DivChain Proofs.PhaseDiv.
 Import ListNotations.
 Open Scope R_scope.
